@@ -161,6 +161,14 @@ func init() {
 		r.noteAssumption("real-backed samples (vSymU16R): the 16-bit value is only read through int->float conversion, where it is a real variable over the type's interval (integrality not used: the checked identities are polynomial)")
 		return t
 	}
+	harnessAPI["vSymI8R"] = func(r *Run, fr *frame, args []Value) Value {
+		t := r.symVar(argStr(fr, args[0]), 8)
+		if r.realBacked == nil {
+			r.realBacked = map[string]bool{}
+		}
+		r.realBacked[t.name] = true
+		return t
+	}
 	harnessAPI["vRealEq"] = func(r *Run, fr *frame, args []Value) Value {
 		return r.floatCmp(fr, token.EQL, args[0].(Float), args[1].(Float))
 	}
@@ -267,7 +275,10 @@ func init() {
 				zero := r.tt.RConst(new(big.Rat))
 				nonneg := r.tt.RBin(OpRLe, zero, x.t)
 				ax := r.tt.And(r.tt.RBin(OpRLe, zero, y), r.tt.Eq(r.tt.RBin(OpRMul, y, y), x.t))
-				r.addPC(r.tt.Or(r.tt.Not(nonneg), ax))
+				// kept out of the path condition: only assertion queries need it, and feasibility
+				// queries stay linear without it (dropping it there only over-approximates)
+				r.lazyAxioms = append(r.lazyAxioms, r.tt.Or(r.tt.Not(nonneg), ax))
+				r.lazyAxiomKeys = append(r.lazyAxiomKeys, y)
 				r.noteAssumption("math.Sqrt is the exact real square root (y >= 0, y*y = x for x >= 0)")
 			}
 			return Float{t: y}
